@@ -373,6 +373,33 @@ func (g *Gen) localByName(name string, at *ssa.BasicBlock, h *Heap) (Val, bool) 
 		pt := cand.Type().Underlying().(*types.Pointer).Elem()
 		return g.loadThrough(h, cand, pt), true
 	}
+	// a variable that only ever denotes one SSA value (assigned once): use that value wherever it dominates
+	{
+		var only ssa.Value
+		multiple := false
+		for _, b := range g.fn.Blocks {
+			for _, in := range b.Instrs {
+				if d, ok := in.(*ssa.DebugRef); ok && !d.IsAddr && d.Object() != nil && d.Object().Name() == name {
+					if c, isC := d.X.(*ssa.Const); isC && c.Value == nil {
+						continue // zero value recorded at the declaration
+					}
+					if only == nil {
+						only = d.X
+					} else if only != d.X {
+						multiple = true
+					}
+				}
+			}
+		}
+		if only != nil && !multiple {
+			if _, done := g.vals[only]; done {
+				return Val{T: g.val(only), Ty: only.Type()}, true
+			}
+			if _, isC := only.(*ssa.Const); isC {
+				return Val{T: g.val(only), Ty: only.Type()}, true
+			}
+		}
+	}
 	// DebugRef: closest dominating definition
 	var best ssa.Value
 	var bestBlock *ssa.BasicBlock
